@@ -110,7 +110,7 @@ theorem fatLine_contains (c : Cubic K) (u : K) (h0 : 0 ≤ u) (h1 : u ≤ 1) :
   set e2 := LineEq.signedDistance (baselineEq c) c.c2
   have hmm : (fatD c).1 ≤ (fatD c).2 ∧
       (((fatD c).1 = e1 ∧ (fatD c).2 = e2) ∨ ((fatD c).1 = e2 ∧ (fatD c).2 = e1)) := by
-    unfold fatD minMax
+    unfold fatD ixMinMax
     by_cases h : e1 < e2
     · rw [if_pos h]; exact ⟨h.le, Or.inl ⟨rfl, rfl⟩⟩
     · rw [if_neg h]; exact ⟨not_lt.mp h, Or.inr ⟨rfl, rfl⟩⟩
